@@ -555,10 +555,38 @@ PROPS["C16"] = dict(family="attrs", level="model_checking", design_ref="4.7",
                     text="The documented domains are a table; acceptance by the real compiler is compared with table membership decided by TLC.", note="Trusted: TLC, Json module, the lexical description of values in the harness (lexValue).")
 
 
+# ---------------------------------------------------------------------------------- quote (C05 C06)
+def corrupt_quote(lines, pid):
+    for e in lines:
+        if pid == "C05" and e.get("ev") == "rt" and e.get("ok") == 1 and e.get("applies") == 1 and e["back"]:
+            e["back"][-1] += 1
+            return "last code point of a string read back changed"
+        if pid == "C06" and e.get("ev") == "ids" and e.get("ok") == 1 and len(e["objs"]) > 1:
+            e["objs"][1]["fold"] = e["objs"][0]["fold"]
+            return "two objects given the same case-folded absolute ID"
+    return None
+
+
+FAMILIES["quote"] = dict(vdrive="quote", trace_module="TraceD2Quote", trace_cfg="TraceD2Quote.cfg", corrupt=corrupt_quote, engine="TraceD2Quote", chunk=4000, heap="4g")
+_q_rule = ("strings over a 38-character alphabet (letters in both cases, blank, tab, newline, every structural character of D2, quotes, backslash, digits, accented, CJK, astral): all of length <= 2 (quick) or <= 3 (thorough, 56,000), "
+           "230 words (null/true/false/suspend and reserved keywords in every letter case, numbers in unusual spellings, connection and import syntax, escapes, leading/trailing/inner blanks, NUL, BOM, bidi and non-breaking characters), "
+           "and 1,500 / 12,000 seeded concatenations of 1-8 such pieces; each through 4 paths: key segment, value, d2oracle.Set of a label, d2oracle.Create of a key. ")
+PROPS["C05"] = dict(family="quote", args={"only": "rt"}, level="exploration", design_ref="4.7", technique="TLA+ statement of the round trip over code-point sequences (identity, stays a string, stays one key segment); TLC compares what the real writer/reader pair returned for every generated string and path",
+                    rule=_q_rule + "Non-trivial: strings of more than 2 bytes.", exhaustive=dict(quick=False, thorough=False),
+                    assumptions=["the empty string is exercised as a label only (an empty key is not a key, ParseValue reports an empty value)", "Create of a reserved keyword, '_' or a name that collides with the existing object is a refusal or a renaming, not a quoting matter, and is skipped",
+                                 "a value read back as a number or boolean counts as preserved when its text equals the string (1.5, true)"],
+                    text="The round trip is an identity statement; the quantifier is discharged by enumeration of the alphabet and word lists, not by a base model.", note="Trusted: TLC, Json module, the rune conversion in the harness.")
+PROPS["C06"] = dict(family="quote", args={"only": "ids"}, level="exploration", design_ref="4.7", technique="TLA+ statement that IDs are a bijection: every object's ID / absolute ID parsed back by the real parser equals its name path, case-folded absolute IDs are pairwise distinct, every connection ID parses back to its own endpoints, arrowheads and index, and that tuple is a key of the board; evaluated by TLC on compiled programs",
+                    rule="300 / 2,500 seeded programs of 2-6 top-level objects named by words and characters of the C05 lists (one in six names is another name in swapped letter case), each with a child named like its neighbour, connections between neighbours, every second pair twice and once more from the nested object. Non-trivial: the program compiles.",
+                    exhaustive=dict(quick=False, thorough=False), assumptions=["names are written with the tools' own quoting (RawString/Format), so that a failure is the ID's, not the generator's"],
+                    text="IDs as keys of the board.", note="Trusted: TLC, Json module.")
+
+
 # ------------------------------------------------------------------------------- manifest data
 HOOK_COMMITS = ["9d004ebd4", "879b5d739"]
 
 ENGINES = {
+    "TraceD2Quote": dict(path="specs/TraceD2Quote.tla", kind="TLA+ statements of the quoting round trip (identity on code-point sequences) and of IDs as keys of a board, evaluated by TLC on the real writer/parser/compiler results"),
     "TraceD2Attrs": dict(path="specs/TraceD2Attrs.tla, specs/attr_domains.json", kind="TLA+ domain table of attribute values (InDomain) evaluated by TLC on the accept/reject verdicts and compiled values of the real compiler"),
     "TraceD2Parse": dict(path="specs/TraceD2Parse.tla", kind="TLA+ definition of source positions (PosAt) + totality contract, evaluated by TLC on the real parser's trees and errors"),
     "TraceD2Oracle": dict(path="specs/TraceD2Oracle.tla", kind="TLA+ action system of the d2oracle API over an identity-keyed graph (effects + frame conditions), evaluated by TLC on before/after snapshots of real edit histories"),
